@@ -1127,3 +1127,34 @@ mod tests {
         }
     }
 }
+
+// --- Verification hooks (cargo feature `verif-hooks`, add-only) -------------
+
+/// The real `accept_config` of the accept loop: spawns the connection
+/// task, which removes the router from `router_states` / `router_info`
+/// when `RouterHandler::run` returns. Exposes, never alters, behaviour.
+#[cfg(feature = "verif-hooks")]
+#[allow(clippy::too_many_arguments)]
+pub fn verif_accept_config(
+    child_name: String,
+    router_handler: RouterHandler,
+    tcp_stream: impl TcpStreamWrapper,
+    client_addr: SocketAddr,
+    ingress_id: IngressId,
+    router_states: &Arc<
+        FrimMap<IngressId, Arc<tokio::sync::Mutex<Option<BmpState>>>>,
+    >,
+    router_info: &Arc<FrimMap<IngressId, Arc<RouterInfo>>>,
+    ingress_register: Arc<ingress::Register>,
+) {
+    <BmpTcpInRunner as ConfigAcceptor>::accept_config(
+        child_name,
+        router_handler,
+        tcp_stream,
+        client_addr,
+        ingress_id,
+        router_states,
+        router_info,
+        ingress_register,
+    )
+}
